@@ -257,7 +257,23 @@ type VerifC04InObs struct {
 // what run() / Run do after the last batch: closeSend, waitForResponses, report, verdict =
 // report && err == nil.  An in-process client that returns nil closes its pipes at once: the reader
 // sees a clean end of stream while requests it accepted are still unanswered.
+// VerifC04SrvFb is one feedback line "<name of case Case>: <Msg>" the in-process (reference) server
+// prints on its stderr: Phase "early" = right after its handshake, before any request is handed to
+// the client; "shutdown" = DelayMs after the runner has told it to stop (ctx cancelled: the batch
+// is over, the graceful shutdown runs), before its function returns.
+type VerifC04SrvFb struct {
+	Phase   string
+	Case    int
+	Msg     string
+	DelayMs int
+}
+
 func VerifC04InProc(spec VerifC11InSpec, knownFailing, knownFlaky []string) VerifC04InObs {
+	return VerifC04InProcFb(spec, knownFailing, knownFlaky, nil)
+}
+
+// VerifC04InProcFb is VerifC04InProc with a server that prints feedback lines as scripted.
+func VerifC04InProcFb(spec VerifC11InSpec, knownFailing, knownFlaky []string, srvFb []VerifC04SrvFb) VerifC04InObs {
 	n := len(spec.Names)
 	cases := make([]*conformancev1.TestCase, n)
 	mux := &verifC11InMux{idx: map[string]int{}, rets: make([]string, n), cbs: make([]int, n), fired: make([]chan struct{}, n), once: make([]sync.Once, n)}
@@ -284,15 +300,28 @@ func VerifC04InProc(spec VerifC11InSpec, knownFailing, knownFlaky []string) Veri
 	results := newResults(n, kf, kl, nil)
 	obs := VerifC04InObs{Panics: []string{}}
 
-	server := func(ctx context.Context, _ []string, in io.ReadCloser, out, _ io.WriteCloser) error {
+	say := func(errW io.Writer, phase string) {
+		for _, f := range srvFb {
+			if f.Phase == phase && f.Case >= 0 && f.Case < n {
+				if f.DelayMs > 0 {
+					time.Sleep(time.Duration(f.DelayMs) * time.Millisecond)
+				}
+				_, _ = io.WriteString(errW, spec.Names[f.Case]+": "+f.Msg+"\n")
+			}
+		}
+	}
+	server := func(ctx context.Context, _ []string, in io.ReadCloser, out, errW io.WriteCloser) error {
 		req := &conformancev1.ServerCompatRequest{}
 		if err := internal.ReadDelimitedMessage(in, req, "runner", 10*time.Second, maxServerResponseSize); err != nil {
 			return err
 		}
+		say(errW, "early")
 		if err := internal.WriteDelimitedMessage(out, &conformancev1.ServerCompatResponse{Host: "127.0.0.1", Port: 12345}); err != nil {
 			return err
 		}
 		<-ctx.Done()
+		// the graceful shutdown: handlers still running may have something to say
+		say(errW, "shutdown")
 		return nil
 	}
 	var awaitTimeout atomic.Bool
